@@ -23,8 +23,16 @@ from nanoemoji.glyph import glyph_name
 DEFAULT_GSUB_FEATURE_TAG = "ccmp"
 
 
-def generate_fea(rgi_sequences, feature_tag=DEFAULT_GSUB_FEATURE_TAG):
+def generate_fea(rgi_sequences, feature_tag=DEFAULT_GSUB_FEATURE_TAG, glyph_names=None):
     # Generate feature with ligature lookup for multi-codepoint RGIs
+    # glyph_names maps codepoint sequences to the names the glyphmap gave them;
+    # anything it doesn't list has the default name.
+    if glyph_names is None:
+        glyph_names = {}
+
+    def _glyph_name(codepoints):
+        return glyph_names.get(tuple(codepoints), glyph_name(codepoints))
+
     rules = []
     rules.append("languagesystem DFLT dflt;")
     rules.append("languagesystem latn dflt;")
@@ -34,8 +42,8 @@ def generate_fea(rgi_sequences, feature_tag=DEFAULT_GSUB_FEATURE_TAG):
     for rgi in sorted(rgi_sequences):
         if len(rgi) == 1:
             continue
-        glyphs = [glyph_name(cp) for cp in rgi]
-        target = glyph_name(rgi)
+        glyphs = [_glyph_name((cp,)) for cp in rgi]
+        target = _glyph_name(rgi)
         rules.append("  sub %s by %s;" % (" ".join(glyphs), target))
 
     rules.append(f"}} {feature_tag};")
